@@ -383,171 +383,190 @@ Definition encode (v : ver) (e : endian) (t : ty) (x : val) : res (list Z) :=
   else Panic P_TODO.
 
 (* ================================================================== decoder *)
+(* Result of a deserializer method: the Reader position is part of the outcome also when the
+   method returns Err (the code keeps reading after some errors: NotEnoughData ends an
+   appendable structure, `let _dheader = ...;` ignores a failed read). *)
+Inductive dres (A : Type) : Type :=
+| DOk (a : A) (pos : Z)
+| DErr (code : Z) (pos : Z)
+| DPanic (site : Z).
+Arguments DOk {A} a pos.
+Arguments DErr {A} code pos.
+Arguments DPanic {A} site.
+Definition dbind {A B} (r : dres A) (f : A -> Z -> dres B) : dres B :=
+  match r with DOk a p => f a p | DErr c p => DErr c p | DPanic s => DPanic s end.
+Notation "x @ p <~ r ;; k" := (dbind r (fun x p => k))
+  (at level 61, p name, r at next level, right associativity).
+Notation "' x @ p <~ r ;; k" := (dbind r (fun x p => k))
+  (at level 61, x pattern, p name, r at next level, right associativity).
+
 Section Decoder.
 Variable V : ver.
 Variable E : endian.
 Variable buf : list Z.
 
-Definition seek (pos n : Z) : res Z := if pos + n >? blen buf then Err E_NED else Ok (pos + n).
-Definition read_bytes (pos n : Z) : res (list Z * Z) :=
-  if pos + n >? blen buf then Err E_NED
-  else Ok (firstn (Z.to_nat n) (skipn (Z.to_nat pos) buf), pos + n).
+Definition seek (pos n : Z) : dres unit :=
+  if pos + n >? blen buf then DErr E_NED pos else DOk tt (pos + n).
+Definition read_bytes (pos n : Z) : dres (list Z) :=
+  if pos + n >? blen buf then DErr E_NED pos
+  else DOk (firstn (Z.to_nat n) (skipn (Z.to_nat pos) buf)) (pos + n).
 (* V::align on the Reader: XCDR1 seek_padding(alignment), XCDR2 seek_padding(min(alignment, 4)) *)
-Definition dec_align (a pos : Z) : res Z :=
+Definition dec_align (a pos : Z) : dres unit :=
   seek pos (padlen pos (match V with V1 => a | V2 => Z.min a 4 end)).
 
-Definition des_prim (k : sk) (pos : Z) : res (Z * Z) :=
-  p <- dec_align (sk_size k) pos ;;
-  '(bs, p') <- read_bytes p (sk_size k) ;;
+Definition des_prim (k : sk) (pos : Z) : dres Z :=
+  _ @ p <~ dec_align (sk_size k) pos ;;
+  bs @ p' <~ read_bytes p (sk_size k) ;;
   match k with
   | KBool => match bs with
-             | [b] => if b =? 0 then Ok (0, p') else if b =? 1 then Ok (1, p') else Err E_DATA
-             | _ => Err E_DATA
+             | [b] => if b =? 0 then DOk 0 p' else if b =? 1 then DOk 1 p' else DErr E_DATA p'
+             | _ => DErr E_DATA p'
              end
   | _ => let u := int_dec E bs in
-         Ok (if sk_signed k then to_signed (sk_bytes k) u else u, p')
+         DOk (if sk_signed k then to_signed (sk_bytes k) u else u) p'
   end.
 
-Fixpoint des_n {A} (f : Z -> res (A * Z)) (n : nat) (pos : Z) : res (list A * Z) :=
+Fixpoint des_n {A} (f : Z -> dres A) (n : nat) (pos : Z) : dres (list A) :=
   match n with
-  | O => Ok ([], pos)
-  | S n' => '(a, p1) <- f pos ;; '(l, p2) <- des_n f n' p1 ;; Ok (a :: l, p2)
+  | O => DOk [] pos
+  | S n' => a @ p1 <~ f pos ;; l @ p2 <~ des_n f n' p1 ;; DOk (a :: l) p2
   end.
 (* `for _ in 0..length { push(f()?) }` with a wire-supplied length: same function as des_n
    (lemma des_z_nat), but structured on the binary length so that evaluation stops at the
    first failing element without building a unary number first *)
-Fixpoint des_pos {A} (f : Z -> res (A * Z)) (p : positive) (pos : Z) : res (list A * Z) :=
+Fixpoint des_pos {A} (f : Z -> dres A) (p : positive) (pos : Z) : dres (list A) :=
   match p with
-  | xH => '(a, p1) <- f pos ;; Ok ([a], p1)
-  | xO q => '(l1, p1) <- des_pos f q pos ;; '(l2, p2) <- des_pos f q p1 ;; Ok (l1 ++ l2, p2)
-  | xI q => '(a, p0) <- f pos ;; '(l1, p1) <- des_pos f q p0 ;;
-            '(l2, p2) <- des_pos f q p1 ;; Ok (a :: l1 ++ l2, p2)
+  | xH => a @ p1 <~ f pos ;; DOk [a] p1
+  | xO q => l1 @ p1 <~ des_pos f q pos ;; l2 @ p2 <~ des_pos f q p1 ;; DOk (l1 ++ l2) p2
+  | xI q => a @ p0 <~ f pos ;; l1 @ p1 <~ des_pos f q p0 ;;
+            l2 @ p2 <~ des_pos f q p1 ;; DOk (a :: l1 ++ l2) p2
   end.
-Definition des_z {A} (f : Z -> res (A * Z)) (n : Z) (pos : Z) : res (list A * Z) :=
-  match n with Zpos p => des_pos f p pos | _ => Ok ([], pos) end.
+Definition des_z {A} (f : Z -> dres A) (n : Z) (pos : Z) : dres (list A) :=
+  match n with Zpos p => des_pos f p pos | _ => DOk [] pos end.
 
-Definition des_string (pos : Z) : res (list Z * Z) :=
-  '(len, p1) <- des_prim KU32 pos ;;
-  '(bs, p2) <- read_bytes p1 (Z.max 0 (len - 1)) ;;
-  '(_, p3) <- read_bytes p2 1 ;;
-  match utf8_dec bs with Some s => Ok (s, p3) | None => Err E_DATA end.
-Definition des_wstring (pos : Z) : res (list Z * Z) :=
-  '(len, p1) <- des_prim KU32 pos ;;
-  if len =? 0 then Ok ([], p1) else
-  '(us, p2) <- des_z (des_prim KU16) (len - 1) p1 ;;
-  '(nul, p3) <- des_prim KU16 p2 ;;
-  if negb (nul =? 0) then Err E_DATA else
-  match utf16_dec us with Some s => Ok (s, p3) | None => Err E_DATA end.
+Definition des_string (pos : Z) : dres (list Z) :=
+  len @ p1 <~ des_prim KU32 pos ;;
+  bs @ p2 <~ read_bytes p1 (Z.max 0 (len - 1)) ;;
+  _ @ p3 <~ read_bytes p2 1 ;;
+  match utf8_dec bs with Some s => DOk s p3 | None => DErr E_DATA p3 end.
+Definition des_wstring (pos : Z) : dres (list Z) :=
+  len @ p1 <~ des_prim KU32 pos ;;
+  if len =? 0 then DOk [] p1 else
+  us @ p2 <~ des_z (des_prim KU16) (len - 1) p1 ;;
+  nul @ p3 <~ des_prim KU16 p2 ;;
+  if negb (nul =? 0) then DErr E_DATA p3 else
+  match utf16_dec us with Some s => DOk s p3 | None => DErr E_DATA p3 end.
 
 (* Rule (5) with the label check *)
-Definition des_enum (h : prim) (labels : list Z) (pos : Z) : res (dyn * Z) :=
-  '(k, r) <- match h with
-             | PI8 => Ok (KI8, des_prim KI8 pos)
-             | PI16 => Ok (KI16, des_prim KI16 pos)
-             | PI32 => Ok (KI32, des_prim KI32 pos)
-             | _ => Panic P_TODO
-             end ;;
-  '(z, p) <- r ;;
-  if match labels with [] => true | _ => existsb (Z.eqb z) labels end
-  then Ok ([(0, VP k z)], p) else Err E_DATA.
+Definition des_enum (h : prim) (labels : list Z) (pos : Z) : dres dyn :=
+  match (match h with PI8 => Some KI8 | PI16 => Some KI16 | PI32 => Some KI32 | _ => None end) with
+  | None => DPanic P_TODO
+  | Some k =>
+    z @ p <~ des_prim k pos ;;
+    if match labels with [] => true | _ => existsb (Z.eqb z) labels end
+    then DOk [(0, VP k z)] p else DErr E_DATA p
+  end.
 
 (* `let _dheader = deserialize_primitive_type::<u32>();` without `?` *)
 Definition des_u32_ignore (pos : Z) : Z :=
-  match dec_align 4 pos with
-  | Ok p => match read_bytes p 4 with Ok (_, p') => p' | _ => p end
-  | _ => pos
-  end.
+  match des_prim KU32 pos with DOk _ p => p | DErr _ p => p | DPanic _ => pos end.
 
-Definition G : Type := Z -> res (val * Z).
+Definition G : Type := Z -> dres val.
 Definition MG : Type := list (minfo * (ty * G)).
 Definition MEM : Type := (minfo * (ty * G))%type.
 
 (* set_*_value(member.get_id(), ...) after deserializing the value *)
-Definition des_value (mb : MEM) (d : dyn) (pos : Z) : res (dyn * Z) :=
-  '(v, p) <- snd (snd mb) pos ;; Ok (insert (m_id (fst mb)) v d, p).
+Definition des_value (mb : MEM) (d : dyn) (pos : Z) : dres dyn :=
+  v @ p <~ snd (snd mb) pos ;; DOk (insert (m_id (fst mb)) v d) p.
 
 (* EncodingVersion1::seek_to_pid *)
-Fixpoint seek_to_pid1 (fuel : nat) (pid : Z) (pos : Z) : res (Z * Z) :=
+Fixpoint seek_to_pid1 (fuel : nat) (pid : Z) (pos : Z) : dres Z :=
   match fuel with
-  | O => Panic P_FUEL
+  | O => DPanic P_FUEL
   | S f =>
-    '(cur, p1) <- des_prim KU16 pos ;;
+    cur @ p1 <~ des_prim KU16 pos ;;
     let cur' := Z.land cur 16383 in
-    '(len, p2) <- des_prim KU16 p1 ;;
-    if (cur' =? 1) && (len =? 0) then (if pid =? 1 then Ok (0, p2) else Err E_PID)
-    else if cur' =? pid then Ok (len, p2)
-    else p3 <- seek p2 len ;; p4 <- dec_align 4 p3 ;; seek_to_pid1 f pid p4
+    len @ p2 <~ des_prim KU16 p1 ;;
+    if (cur' =? 1) && (len =? 0) then (if pid =? 1 then DOk 0 p2 else DErr E_PID p2)
+    else if cur' =? pid then DOk len p2
+    else _ @ p3 <~ seek p2 len ;; _ @ p4 <~ dec_align 4 p3 ;; seek_to_pid1 f pid p4
   end.
 (* EncodingVersion2::seek_to_pid *)
-Fixpoint seek_to_pid2 (fuel : nat) (pid : Z) (pos : Z) : res (Z * Z) :=
+Fixpoint seek_to_pid2 (fuel : nat) (pid : Z) (pos : Z) : dres Z :=
   match fuel with
-  | O => Panic P_FUEL
+  | O => DPanic P_FUEL
   | S f =>
-    '(emh, p1) <- des_prim KU32 pos ;;
+    emh @ p1 <~ des_prim KU32 pos ;;
     let cur := wrap_u16 (Z.land emh 268435455) in
     let lc := Z.land (emh / 268435456) 7 in
-    '(len, p2) <- (if lc =? 0 then Ok (1, p1) else if lc =? 1 then Ok (2, p1)
-                   else if lc =? 2 then Ok (4, p1) else if lc =? 3 then Ok (8, p1)
-                   else '(x, p) <- des_prim KU32 p1 ;;
-                        let m := if lc =? 6 then 4 else if lc =? 7 then 8 else 1 in
-                        if m * x >? u32_max then Panic P_TODO else Ok (m * x, p)) ;;
-    if cur =? pid then Ok (wrap_u16 len, if lc =? 5 then p2 - 4 else p2)
-    else p3 <- seek p2 len ;; p4 <- dec_align 4 p3 ;; seek_to_pid2 f pid p4
+    len @ p2 <~ (if lc =? 0 then DOk 1 p1 else if lc =? 1 then DOk 2 p1
+                 else if lc =? 2 then DOk 4 p1 else if lc =? 3 then DOk 8 p1
+                 else x @ p <~ des_prim KU32 p1 ;;
+                      let m := if lc =? 6 then 4 else if lc =? 7 then 8 else 1 in
+                      if m * x >? u32_max then DPanic P_TODO else DOk (m * x) p) ;;
+    if cur =? pid then DOk (wrap_u16 len) (if lc =? 5 then p2 - 4 else p2)
+    else _ @ p3 <~ seek p2 len ;; _ @ p4 <~ dec_align 4 p3 ;; seek_to_pid2 f pid p4
   end.
 Definition fuel0 : nat := S (length buf).
 
-(* Rule (24) reader side *)
-Definition des_mmember1 (mb : MEM) (d : dyn) (pos : Z) : res (dyn * Z) :=
-  p0 <- dec_align 4 pos ;;
+(* Rule (24) reader side: reader.pos is restored to the position before the search *)
+Definition des_mmember1 (mb : MEM) (d : dyn) (pos : Z) : dres dyn :=
+  _ @ p0 <~ dec_align 4 pos ;;
   match seek_to_pid1 fuel0 (wrap_u16 (m_id (fst mb))) p0 with
-  | Ok (len, p1) =>
-    if len >? 0 then '(d', _) <- des_value mb d p1 ;; Ok (d', p0) else Ok (d, p0)
-  | Err _ => Ok (d, p0)
-  | Panic s => Panic s
+  | DOk len p1 =>
+    if len >? 0 then
+      match des_value mb d p1 with
+      | DOk d' _ => DOk d' p0 | DErr c _ => DErr c p0 | DPanic s => DPanic s
+      end
+    else DOk d p0
+  | DErr _ _ => DOk d p0
+  | DPanic s => DPanic s
   end.
 (* Rule (22) reader side *)
-Definition des_mmember2 (mb : MEM) (d : dyn) (pos : Z) : res (dyn * Z) :=
-  p0 <- dec_align 4 pos ;;
+Definition des_mmember2 (mb : MEM) (d : dyn) (pos : Z) : dres dyn :=
+  _ @ p0 <~ dec_align 4 pos ;;
   match seek_to_pid2 fuel0 (wrap_u16 (m_id (fst mb))) p0 with
-  | Ok (_, p1) => '(d', _) <- des_value mb d p1 ;; Ok (d', p0)
-  | Err _ => Ok (d, p0)
-  | Panic s => Panic s
+  | DOk _ p1 =>
+    match des_value mb d p1 with
+    | DOk d' _ => DOk d' p0 | DErr c _ => DErr c p0 | DPanic s => DPanic s
+    end
+  | DErr _ _ => DOk d p0
+  | DPanic s => DPanic s
   end.
-Definition des_mmember (mb : MEM) (d : dyn) (pos : Z) : res (dyn * Z) :=
+Definition des_mmember (mb : MEM) (d : dyn) (pos : Z) : dres dyn :=
   match V with V1 => des_mmember1 mb d pos | V2 => des_mmember2 mb d pos end.
 
 (* Rules (19) / (20) reader side *)
-Definition des_opt_fmember (mb : MEM) (d : dyn) (pos : Z) : res (dyn * Z) :=
+Definition des_opt_fmember (mb : MEM) (d : dyn) (pos : Z) : dres dyn :=
   match V with
   | V1 => des_mmember1 mb d pos
-  | V2 => '(b, p) <- des_prim KBool pos ;; if b =? 1 then des_value mb d p else Ok (d, p)
+  | V2 => b @ p <~ des_prim KBool pos ;; if b =? 1 then des_value mb d p else DOk d p
   end.
-Definition des_fmember (mb : MEM) (d : dyn) (pos : Z) : res (dyn * Z) :=
+Definition des_fmember (mb : MEM) (d : dyn) (pos : Z) : dres dyn :=
   if m_opt (fst mb) then des_opt_fmember mb d pos else des_value mb d pos.
 
-(* Rule (17) reader side; `app`: NotEnoughData ends an appendable structure early
-   (the Reader position after such a break is approximated by the position before the member) *)
-Fixpoint des_fstruct (app : bool) (mgs : MG) (d : dyn) (pos : Z) : res (dyn * Z) :=
+(* Rule (17) reader side; `app`: NotEnoughData ends an appendable structure early *)
+Fixpoint des_fstruct (app : bool) (mgs : MG) (d : dyn) (pos : Z) : dres dyn :=
   match mgs with
-  | [] => Ok (d, pos)
+  | [] => DOk d pos
   | mb :: r =>
     match des_fmember mb d pos with
-    | Ok (d', p') => des_fstruct app r d' p'
-    | Err c => if app && (c =? E_NED) then Ok (d, pos) else Err c
-    | Panic s => Panic s
+    | DOk d' p' => des_fstruct app r d' p'
+    | DErr c p' => if app && (c =? E_NED) then DOk d p' else DErr c p'
+    | DPanic s => DPanic s
     end
   end.
 (* { O.member[i] : MMEMBER }* *)
-Fixpoint des_members (mgs : MG) (d : dyn) (pos : Z) : res (dyn * Z) :=
+Fixpoint des_members (mgs : MG) (d : dyn) (pos : Z) : dres dyn :=
   match mgs with
-  | [] => Ok (d, pos)
-  | mb :: r => '(d', p') <- des_mmember mb d pos ;; des_members r d' p'
+  | [] => DOk d pos
+  | mb :: r => d' @ p' <~ des_mmember mb d pos ;; des_members r d' p'
   end.
-Definition des_mstruct (mgs : MG) (pos : Z) : res (dyn * Z) :=
+Definition des_mstruct (mgs : MG) (pos : Z) : dres dyn :=
   match V with
-  | V1 => '(d, p) <- des_members mgs [] pos ;;
-          '(_, p') <- seek_to_pid1 fuel0 1 p ;; Ok (d, p')
-  | V2 => '(_, p) <- des_prim KU32 pos ;; des_members mgs [] p
+  | V1 => d @ p <~ des_members mgs [] pos ;;
+          _ @ p' <~ seek_to_pid1 fuel0 1 p ;; DOk d p'
+  | V2 => _ @ p <~ des_prim KU32 pos ;; des_members mgs [] p
   end.
 
 (* get_discriminator_id_as_i32 *)
@@ -570,34 +589,36 @@ Fixpoint select_member {X} (disc : Z) (dflt : option (minfo * X)) (ms : list (mi
     if existsb (Z.eqb disc) (m_labels (fst mb)) then Some mb
     else select_member disc (if m_dflt (fst mb) then Some mb else dflt) r
   end.
+Definition with_disc (d1 : dyn) (p1 : Z) (mgs : MG) (k : MEM -> dres dyn) : dres dyn :=
+  match disc_i32 d1 with
+  | Ok disc =>
+    match select_member disc None mgs with
+    | Some mb => k mb
+    | None => DErr E_DATA p1
+    end
+  | Err c => DErr c p1
+  | Panic s => DPanic s
+  end.
 
 (* Rule (26) reader side; mgs = discriminator member :: cases *)
-Definition des_funion (mgs : MG) (pos : Z) : res (dyn * Z) :=
+Definition des_funion (mgs : MG) (pos : Z) : dres dyn :=
   match mgs with
-  | [] => Err E_IDX
+  | [] => DErr E_IDX pos
   | dm :: _ =>
-    '(d1, p1) <- des_value dm [] pos ;;
-    disc <- disc_i32 d1 ;;
-    match select_member disc None mgs with
-    | Some mb => des_fmember mb d1 p1
-    | None => Err E_DATA
-    end
+    d1 @ p1 <~ des_value dm [] pos ;;
+    with_disc d1 p1 mgs (fun mb => des_fmember mb d1 p1)
   end.
 (* Rules (27) / (28) reader side *)
-Definition des_munion (mgs : MG) (pos : Z) : res (dyn * Z) :=
+Definition des_munion (mgs : MG) (pos : Z) : dres dyn :=
   let p := match V with V1 => pos | V2 => des_u32_ignore pos end in
   match mgs with
-  | [] => Err E_IDX
+  | [] => DErr E_IDX p
   | dm :: _ =>
-    '(d1, p1) <- des_mmember dm [] p ;;
-    disc <- disc_i32 d1 ;;
-    match select_member disc None mgs with
-    | Some mb => des_mmember mb d1 p1
-    | None => Err E_DATA
-    end
+    d1 @ p1 <~ des_mmember dm [] p ;;
+    with_disc d1 p1 mgs (fun mb => des_mmember mb d1 p1)
   end.
 
-Definition des_struct_nested (x : ext) (mgs : MG) (pos : Z) : res (dyn * Z) :=
+Definition des_struct_nested (x : ext) (mgs : MG) (pos : Z) : dres dyn :=
   match x with
   | Final => des_fstruct false mgs [] pos
   | Appendable =>
@@ -608,52 +629,52 @@ Definition des_struct_nested (x : ext) (mgs : MG) (pos : Z) : res (dyn * Z) :=
   | Mutable => des_mstruct mgs pos
   end.
 (* deserialize_as_nested, UNION arm: an appendable union reads a DHEADER in BOTH versions *)
-Definition des_union_nested (x : ext) (mgs : MG) (pos : Z) : res (dyn * Z) :=
+Definition des_union_nested (x : ext) (mgs : MG) (pos : Z) : dres dyn :=
   match x with
   | Final => des_funion mgs pos
-  | Appendable => '(_, p) <- des_prim KU32 pos ;; des_funion mgs p
+  | Appendable => _ @ p <~ des_prim KU32 pos ;; des_funion mgs p
   | Mutable => des_munion mgs pos
   end.
 
-Definition undata (r : res (val * Z)) : res (dyn * Z) :=
-  '(v, p) <- r ;; match v with VData d => Ok (d, p) | _ => Err E_TYPE end.
+Definition undata (r : dres val) : dres dyn :=
+  v @ p <~ r ;; match v with VData d => DOk d p | _ => DErr E_TYPE p end.
 
 (* deserialize_sequence_elements *)
-Definition des_elements (e : ty) (ge : G) (n : Z) (pos : Z) : res (val * Z) :=
+Definition des_elements (e : ty) (ge : G) (n : Z) (pos : Z) : dres val :=
   match e with
   | TPrim p =>
     match p with
-    | PByte | PU8 => '(bs, p') <- read_bytes pos n ;; Ok (VSeqP KU8 bs, p')
-    | _ => '(l, p') <- des_z (des_prim (prim_sk p)) n pos ;; Ok (VSeqP (prim_sk p) l, p')
+    | PByte | PU8 => bs @ p' <~ read_bytes pos n ;; DOk (VSeqP KU8 bs) p'
+    | _ => l @ p' <~ des_z (des_prim (prim_sk p)) n pos ;; DOk (VSeqP (prim_sk p) l) p'
     end
-  | TStr => '(l, p') <- des_z des_string n pos ;; Ok (VSeqStr l, p')
-  | TWStr => '(l, p') <- des_z des_wstring n pos ;; Ok (VSeqStr l, p')
+  | TStr => l @ p' <~ des_z des_string n pos ;; DOk (VSeqStr l) p'
+  | TWStr => l @ p' <~ des_z des_wstring n pos ;; DOk (VSeqStr l) p'
   | TEnum _ _ | TStruct _ _ | TUnion _ _ _ =>
-    '(l, p') <- des_z (fun p => undata (ge p)) n pos ;; Ok (VSeqData l, p')
-  | TSeq _ | TArr _ _ => Panic P_TODO
+    l @ p' <~ des_z (fun p => undata (ge p)) n pos ;; DOk (VSeqData l) p'
+  | TSeq _ | TArr _ _ => DPanic P_TODO
   end.
-Definition des_sequence (e : ty) (ge : G) (pos : Z) : res (val * Z) :=
-  if is_prim_ty e then '(len, p) <- des_prim KU32 pos ;; des_elements e ge len p
+Definition des_sequence (e : ty) (ge : G) (pos : Z) : dres val :=
+  if is_prim_ty e then len @ p <~ des_prim KU32 pos ;; des_elements e ge len p
   else match V with
-       | V1 => '(len, p) <- des_prim KU32 pos ;; des_elements e ge len p
-       | V2 => '(_, p0) <- des_prim KU32 pos ;;
-               '(len, p) <- des_prim KU32 p0 ;; des_elements e ge len p
+       | V1 => len @ p <~ des_prim KU32 pos ;; des_elements e ge len p
+       | V2 => _ @ p0 <~ des_prim KU32 pos ;;
+               len @ p <~ des_prim KU32 p0 ;; des_elements e ge len p
        end.
-Definition des_array (n : Z) (e : ty) (ge : G) (pos : Z) : res (val * Z) :=
+Definition des_array (n : Z) (e : ty) (ge : G) (pos : Z) : dres val :=
   if is_prim_ty e then des_elements e ge n pos
   else match V with
        | V1 => des_elements e ge n pos
-       | V2 => '(_, p0) <- des_prim KU32 pos ;; des_elements e ge n p0
+       | V2 => _ @ p0 <~ des_prim KU32 pos ;; des_elements e ge n p0
        end.
 
-Definition as_data (r : res (dyn * Z)) : res (val * Z) := '(d, p) <- r ;; Ok (VData d, p).
+Definition as_data (r : dres dyn) : dres val := d @ p <~ r ;; DOk (VData d) p.
 
 (* deserialize_value's dispatch on the member type kind; aggregated types: deserialize_as_nested *)
 Fixpoint des_ty (t : ty) {struct t} : G :=
   match t with
-  | TPrim p => fun pos => '(z, p') <- des_prim (prim_sk p) pos ;; Ok (VP (prim_sk p) z, p')
-  | TStr => fun pos => '(s, p') <- des_string pos ;; Ok (VStr s, p')
-  | TWStr => fun pos => '(s, p') <- des_wstring pos ;; Ok (VStr s, p')
+  | TPrim p => fun pos => z @ p' <~ des_prim (prim_sk p) pos ;; DOk (VP (prim_sk p) z) p'
+  | TStr => fun pos => s @ p' <~ des_string pos ;; DOk (VStr s) p'
+  | TWStr => fun pos => s @ p' <~ des_wstring pos ;; DOk (VStr s) p'
   | TEnum h ls => fun pos => as_data (des_enum h ls pos)
   | TSeq e => des_sequence e (des_ty e)
   | TArr n e => des_array n e (des_ty e)
@@ -681,6 +702,10 @@ Definition decode (t : ty) (bytes : list Z) : res val :=
                   else if (b1 =? 7) || (b1 =? 9) || (b1 =? 11) then Ok (V2, LE)
                   else Err E_DATA
                 else Err E_DATA) ;;
-    if is_aggr t then '(x, _) <- des_ty v e body t 0 ;; Ok x else Err E_TYPE
+    if is_aggr t then
+      match des_ty v e body t 0 with
+      | DOk x _ => Ok x | DErr c _ => Err c | DPanic s => Panic s
+      end
+    else Err E_TYPE
   | _ => Err E_NED
   end.
